@@ -237,8 +237,10 @@ CLAIMS = {
                  "producing no token. PARTIAL: invariance under splitting into shell words is FALSE in general (D01, known finding, pinned "
                  "by the repository's own test) and is therefore not a theorem; for renderings that keep root-position words alone, and "
                  "for the combinations of case/alias/bracket/optional-token renderings of whole generated queries, equality of the parsed "
-                 "Query (in-process) and of the rows is decided by the metamorphic check, and the lexer's context flags are covered by the "
-                 "model correspondence only. D63 fixed (root option `regexp`/any-case `RX`)."),
+                 "Query (in-process) and of the rows is decided by the metamorphic check. At the lexer: quoted_literal_is_one_token — whatever stands "
+                 "between single or double quotes (blanks, commas, brackets, operators, keywords, the other quote) becomes the text of one String "
+                 "token in every lexer context, by induction over the text against the well-founded scanning loop; the other context flags of "
+                 "the lexer are covered by the model correspondence only. D63 fixed (root option `regexp`/any-case `RX`)."),
         "ref": "DESIGN.md §4 C11",
     },
     "C15": {
